@@ -125,6 +125,20 @@ def w_rules(P, E):
                 if b.id != hN.id or c.name != "push":
                     r.violate(("W4", b.nid, "buffer mutated outside the next callback"), "buffer.%s outside the next callback" % c.name, body=b, line=c.line)
 
+    # ---- W7: who may write the waker slot: poll only (terminals and everything else only read it)
+    for b in P.bodies.values():
+        if b.id in P.absorbed:
+            continue
+        if not b.nid.startswith("operators::to_vec::") and not b.nid.startswith("<operators::to_vec::"):
+            continue
+        awx, _, _ = _acqs(P, b, "waker")
+        for bb, a in sorted(awx.items()):
+            r.instance(("W7", b.nid, a["mode"]), True, "waker acquired in mode %s" % a["mode"])
+            if a["mode"] in ("W", "M") and b.id != poll.id:
+                r.violate(("W7", b.nid, "waker slot written outside poll"),
+                          "the waker slot is acquired exclusively outside poll (%s): a stored waker can be replaced or emptied "
+                          "behind a pending handle's back and its wake-up is lost" % b.nid, body=b, line=a["line"])
+
     # ---- W2 / W3 / W5 in the terminal closures
     for (role, hb) in (("error", hE), ("complete", hC)):
         ds = _stores(P, hb, "done")
